@@ -410,3 +410,98 @@ def g6(ctx):
                           '%s: the named map is keyed by (namespace argument, class argument)' % inst(f),
                           '%s: named-map key is %s' % (inst(f), c.text(4)), c.loc)
     ctx.require(n >= 6, 'only %d registry mutation sites' % n)
+
+
+def _ns_param(f):
+    """position of the namespace parameter of an engine function: the one named parameter of plain
+    std::string type of a PyTreeSpec / PyTreeTypeRegistry / PyTreeIter member or of a free function
+    of src/treespec (exceptions, hashing and repr helpers take strings that are not namespaces)"""
+    if f.record not in ('optree::PyTreeSpec', 'optree::PyTreeTypeRegistry', 'optree::PyTreeIter') and \
+            not (f.file or '').startswith('src/treespec/'):
+        return None
+    ps = [i for i, p in enumerate(f.params) if p[0] and
+          (p[1] or '').replace('const ', '').replace(' &', '').strip() in
+          ('std::string', 'std::basic_string<char>')]
+    return ps[0] if len(ps) == 1 else None
+
+
+def _static_member(prog, g):
+    """`static` is written on the declaration inside the class, not on the out-of-line definition"""
+    rec = prog.records.get(g.record)
+    return g.is_static or (rec is not None and any(n == g.name and iss for n, sig, isc, iss, acc in rec.methods))
+
+
+@rule('NS1', floor=40, title='the namespace a caller asked for is the namespace every callee is asked about')
+def ns1(ctx):
+    """Namespace threading: every call of an engine function that takes a namespace passes the
+    caller's own namespace parameter (through lambdas: the enclosing function's), or - in a
+    method of a class that carries one - `this->m_namespace`; never a constant or another value."""
+    prog = ctx.cxx()
+    from .common import strip_casts
+    takers = {}
+    for f in prog.funcs.values():
+        if f.is_lambda or not f.file:
+            continue
+        i = _ns_param(f)
+        if i is not None:
+            takers[id(f)] = i
+    ctx.require(len(takers) >= 20, 'only %d namespace-taking engine functions found' % len(takers))
+
+    def own_ns(g):
+        """names a caller may pass: its namespace parameter, or that of the function its lambda sits in"""
+        seen = set()
+        while g is not None and id(g) not in seen:
+            seen.add(id(g))
+            if not g.is_lambda:
+                i = _ns_param(g)
+                return ({g.params[i][0]} if i is not None else set()), g
+            g = prog.funcs.get(g.parent)
+        return set(), None
+    sites = 0
+    for g in live_funcs(prog):
+        if g.body is None or not g.file or g.is_lambda:
+            continue
+        fam = [g]
+        stack = [g]
+        while stack:
+            for l in prog.lambdas_of(stack.pop()):
+                fam.append(l)
+                stack.append(l)
+        names, outer = own_ns(g)
+        for h in fam:
+            if h.body is None:
+                continue
+            for c in h.body.walk():
+                if c.kind not in CALL_KINDS and c.kind not in CTOR_KINDS:
+                    continue
+                t = callee_func(prog, h, c)
+                if t is None or id(t) not in takers:
+                    continue
+                a = c.call_args()
+                i = takers[id(t)]
+                arg = a[i] if i < len(a) else None
+                if arg is None:
+                    continue
+                e = strip_casts(arg)
+                # a copy `std::string{ns}` of the namespace is the namespace
+                while e is not None and e.kind in CTOR_KINDS and len([k for k in e.kids if k is not None]) == 1:
+                    e = strip_casts([k for k in e.kids if k is not None][0])
+                mp = member_path(e) if e is not None else None
+                sites += 1
+                key = '%s->%s@%s' % (short(g), t.name, c.loc.split(':')[-1] if False else t.name)
+                if names:
+                    ok = mp in names
+                    why = 'its own namespace parameter'
+                elif g.record in ('optree::PyTreeSpec', 'optree::PyTreeIter') and not _static_member(prog, g):
+                    ok = mp in ('this.m_namespace', 'm_namespace')
+                    why = 'this->m_namespace'
+                else:
+                    # no namespace of its own (unpickling, bindings): anything but a constant
+                    ok = e is not None and e.kind in ('DeclRefExpr', 'MemberExpr') and mp is not None
+                    why = 'a namespace value it was given'
+                ctx.check('%s/%s' % (short(g), t.name), ok,
+                          '%s asks %s about %s' % (inst(g), t.name, why),
+                          '%s calls %s with the namespace `%s` instead of %s: the registrations / '
+                          'dict-order mode consulted are those of another namespace'
+                          % (inst(g), t.name, arg.text(5), why), c.loc)
+    ctx.analysed['namespace_call_sites'] = sites
